@@ -42,7 +42,7 @@ static void geometry(int g, cvm::rvector *x)
 }
 static const double MASS[NAT] = {1.0, 12.0, 16.0, 14.0, 1.0, 32.0, 12.0};
 
-struct Opt { double T; bool hide, subtract, same_step; };
+struct Opt { double T; bool hide, subtract, same_step; bool walls = false; };
 
 static std::string conf_text(Comp const &c, Opt const &o, bool with_bias)
 {
@@ -52,6 +52,9 @@ static std::string conf_text(Comp const &c, Opt const &o, bool with_bias)
   if (o.subtract) s += " subtractAppliedForce on\n";
   s += c.body + "}\n";
   if (with_bias) s += "harmonic {\n colvars v\n centers 0.0\n targetCenters 6.0\n targetNumSteps 3\n forceConstant " + std::string(o.hide ? "15000.0" : "1.5") + "\n}\n";
+  // a second bias of another kind: a wall far below the value, always active (harmonicWalls is the bias that by default
+  // bypasses an extended-Lagrangian coordinate; its force is Colvars' own applied force like any other)
+  if (with_bias && o.walls) s += "harmonicWalls {\n colvars v\n upperWalls -1000.0\n forceConstant " + std::string(o.hide ? "10.0" : "0.001") + "\n}\n";
   if (o.hide) s += "abf {\n colvars v\n applyBias off\n hideJacobian on\n fullSamples 1000\n}\n";
   return s;
 }
@@ -135,11 +138,15 @@ int main(int argc, char **argv)
       for (double T : {0.0, 300.0})
         for (int hide = 0; hide <= 1; hide++)
           for (int sub = 0; sub <= 1; sub++)
-            for (int ss = 0; ss <= 1; ss++) {
+            for (int ssw = 0; ssw <= 3; ssw++) {
+              int ss = ssw % 2;
+              bool walls = ssw >= 2;
+              if (walls && std::string(c.name) == "dihedral") continue;  // (walls on a periodic variable follow the closest-wall rule)
               if (!thorough && T == 0.0 && hide) continue;  // (hideJacobian is a no-op at T = 0)
               Opt o{T, hide != 0, sub != 0, ss != 0};
+              o.walls = walls;
               std::string det = base + ",\"T\":" + num(T) + ",\"hideJacobian\":" + (hide ? "true" : "false") + ",\"subtractAppliedForce\":" + (sub ? "true" : "false") +
-                                ",\"timing\":\"" + (ss ? "same-step" : "lagged") + "\"";
+                                ",\"timing\":\"" + (ss ? "same-step" : "lagged") + "\"" + (walls ? ",\"second_bias\":\"harmonicWalls\"" : "");
               r.count("evaluations");
               // run A: positions fixed, harmonic with moving centre -> bias force fb(s) known in closed form; record applied atomic forces
               std::vector<std::vector<cvm::rvector>> applied;
@@ -166,7 +173,8 @@ int main(int argc, char **argv)
                   double xv = cv->value().real_value, cen = 6.0 * std::min(1.0, s / 3.0);
                   double diff = xv - cen;
                   if (std::string(c.name) == "dihedral") diff = std::remainder(diff, 360.0);
-                  fb.push_back(-1.5 * diff);  // (force constant scaled with the square of the width)
+                  // (force constants are scaled with the square of the width; the wall at -1000 is always active)
+                  fb.push_back(-1.5 * diff + (o.walls ? -0.001 * (xv + 1000.0) : 0.0));
                   val.push_back(xv);
                   jd.push_back(cv->fj.real_value);
                   std::vector<cvm::rvector> ap(NAT);
